@@ -65,87 +65,7 @@ func checkC14(p *Prog, r *Report) {
 
 	// ---- R14.1 bounded reads ---------------------------------------------
 	r.Rule("R14.1", "readStreamingPacket: every slice of the caller's buffer has its upper bound dominated by 'length <= cap(buf)' (else io.ErrShortBuffer is returned, and only then); the length is the big-endian 16-bit header; both read loops run until exactly the wanted number of bytes, slice [read:wanted] and add the n returned by that Read.", 5)
-	bufObj := p.paramObj(rd, 1)
-	connObj := p.paramObj(rd, 0)
-	isCapBuf := func(e ast.Expr) bool { return p.isBuiltinOf(e, "cap", bufObj) || p.isBuiltinOf(e, "len", bufObj) }
-	walkBody(rd, func(n ast.Node) bool {
-		sl, ok := n.(*ast.SliceExpr)
-		if !ok {
-			return true
-		}
-		id, ok := unparen(sl.X).(*ast.Ident)
-		if !ok {
-			return true
-		}
-		pos := p.Pos(sl.Pos())
-		if p.ObjOf(id) == bufObj {
-			facts, _ := p.FactsAtCall(rd, sl)
-			hi := sl.High
-			ok := hi != nil && factLT(p, facts, false, isCapBuf, func(e ast.Expr) bool { return p.Canon(e) == p.Canon(hi) })
-			r.Check(ok, "readStreamingPacket: slice of caller buffer", pos, "upper bound dominated by !(cap(buf) < bound)",
-				"the caller's buffer is sliced up to "+stripVarLines(p.Canon(hi))+" without a dominating test that it does not exceed cap(buf): a hostile length field makes the slice panic or the read unbounded")
-		} else if o := p.ObjOf(id); o != nil {
-			// local header buffer: constant make size >= constant upper bound
-			if d, ok := p.SingleDef(rd, o); ok {
-				if mk, ok := unparen(d.Rhs).(*ast.CallExpr); ok && p.CalleeName(mk) == "builtin.make" && len(mk.Args) >= 2 {
-					sz, ok1 := p.constBig(mk.Args[1])
-					var hi *big.Int
-					ok2 := false
-					if sl.High != nil {
-						hi, ok2 = p.constBig(sl.High)
-					}
-					r.Check(ok1 && ok2 && hi.Cmp(sz) <= 0, "readStreamingPacket: slice of header buffer", pos, "constant bound within constant size", "header buffer slice bound is not a constant within the buffer's constant size")
-				}
-			}
-		}
-		return true
-	})
-	// ErrShortBuffer only when strictly larger
-	foundShort := false
-	walkBody(rd, func(n ast.Node) bool {
-		rs, ok := n.(*ast.ReturnStmt)
-		if !ok || len(rs.Results) != 2 || !p.MentionsObj(rs.Results[1], "io.ErrShortBuffer") {
-			return true
-		}
-		foundShort = true
-		facts, _ := p.FactsAtCall(rd, rs)
-		ok2 := factLT(p, facts, true, func(e ast.Expr) bool { return p.isBuiltinOf(e, "cap", bufObj) }, func(e ast.Expr) bool { return true })
-		r.Check(ok2, "readStreamingPacket: short-buffer error condition", p.Pos(rs.Pos()), "returned exactly when cap(buf) < length",
-			"io.ErrShortBuffer is not returned under 'length > cap(buf)': frames that fit the buffer exactly are refused, or oversized ones accepted")
-		return true
-	})
-	if !foundShort {
-		r.Fail("readStreamingPacket: short-buffer error condition", p.Pos(rd.Body.Pos()), "no io.ErrShortBuffer return: frames larger than the reader's buffer are not refused")
-	}
-	// length derives from the BigEndian Uint16 of the header
-	lenOK := false
-	walkBody(rd, func(n ast.Node) bool {
-		if c, ok := n.(*ast.CallExpr); ok && p.CalleeName(c) == "encoding/binary.bigEndian.Uint16" {
-			lenOK = true
-		}
-		return true
-	})
-	r.Check(lenOK, "readStreamingPacket: header decoding", p.Pos(rd.Body.Pos()), "binary.BigEndian.Uint16(header)", "the length is not decoded as a big-endian 16-bit header")
-	// loops
-	nLoops := 0
-	walkBody(rd, func(n ast.Node) bool {
-		fs, ok := n.(*ast.ForStmt)
-		if !ok {
-			return true
-		}
-		nLoops++
-		problems := p.checkReadLoop(rd, fs, connObj)
-		r.Check(len(problems) == 0, fmt.Sprintf("readStreamingPacket: read loop #%d", nLoops), p.Pos(fs.Pos()), "for read < want { n = Read(x[read:want]); read += n }", strings.Join(problems, "; "))
-		return true
-	})
-	if nLoops != 2 {
-		r.Fail("readStreamingPacket: read loops", p.Pos(rd.Body.Pos()), fmt.Sprintf("expected a header loop and a body loop, found %d loops: short reads are not tolerated", nLoops))
-	}
-	// every error from Read is returned
-	for _, c := range p.CallsTo(rd, false, "net.Conn.Read") {
-		loc, _ := p.CFG(rd).Locate(c)
-		_ = loc
-	}
+	checkReadStreamingPacket(p, r, rd, hdr)
 
 	// ---- R14.2 guarded narrowing ---------------------------------------------
 	r.Rule("R14.2", "Every conversion of a non-constant integer to a 16-bit (or narrower) unsigned type in the framing code is dominated by a test that the value fits (else an error is returned before anything is written): the length header is never a truncated length.", 1)
@@ -547,6 +467,10 @@ func checkC14(p *Prog, r *Report) {
 	if nBuf == 0 {
 		r.Fail("I/O buffers", "", "no make([]byte, n) buffer found (rule instance lost)")
 	}
+
+	// ---- R14.9 a queued packet owns its bytes ---------------------------------------------------------------
+	r.Rule("R14.9", "A reader that reuses one buffer for successive readStreamingPacket calls hands each packet on (to the packet connection's queue, to a channel, to another goroutine) as a private copy, never as a slice of that buffer: a packet still queued when the next frame is read keeps its contents (shared with C07).", 1)
+	checkQueuedPacketsOwnTheirBytes(p, r)
 }
 
 // errOfCall: e is the error variable assigned from call (possibly in a
@@ -652,4 +576,185 @@ func (p *Prog) checkReadLoop(f *Func, fs *ast.ForStmt, connObj types.Object) []s
 		problems = append(problems, "a Read error does not return")
 	}
 	return problems
+}
+
+
+// checkQueuedPacketsOwnTheirBytes: shared by C14 R14.9 and C07 R7.6.
+func checkQueuedPacketsOwnTheirBytes(p *Prog, r *Report) {
+	n := 0
+	for _, f := range p.AllFuncs {
+		if f.Body == nil || f.Pkg != p.Ice {
+			continue
+		}
+		f := f
+		// the reused read buffers: the buffer argument of a readStreamingPacket call that sits in a loop
+		var bufs []types.Object
+		walkBody(f, func(x ast.Node) bool {
+			var body *ast.BlockStmt
+			switch y := x.(type) {
+			case *ast.ForStmt:
+				body = y.Body
+			case *ast.RangeStmt:
+				body = y.Body
+			}
+			if body == nil {
+				return true
+			}
+			ast.Inspect(body, func(z ast.Node) bool {
+				if _, isLit := z.(*ast.FuncLit); isLit {
+					return false
+				}
+				if c, ok := z.(*ast.CallExpr); ok && p.CalleeName(c) == "ice.readStreamingPacket" && len(c.Args) == 2 {
+					if id := rootIdent(c.Args[1]); id != nil {
+						if o := p.ObjOf(id); o != nil && o.Pos() < body.Pos() {
+							bufs = append(bufs, o) // declared outside the loop: reused by the next iteration
+						}
+					}
+				}
+				return true
+			})
+			return true
+		})
+		for _, b := range bufs {
+			n++
+			bad := ""
+			aliases := func(e ast.Expr) bool {
+				// the expression is the buffer or a slice of it (copies made by append([]byte{}, ...) / make+copy are not)
+				e = unparen(p.Deref(f, e))
+				for {
+					switch y := e.(type) {
+					case *ast.SliceExpr:
+						e = unparen(y.X)
+						continue
+					case *ast.ParenExpr:
+						e = y.X
+						continue
+					}
+					break
+				}
+				id, ok := e.(*ast.Ident)
+				return ok && p.ObjOf(id) == b
+			}
+			walkBody(f, func(x ast.Node) bool {
+				switch y := x.(type) {
+				case *ast.CompositeLit:
+					if typeStr(p.TypeOf(y)) == "ice.streamingPacket" {
+						for _, el := range y.Elts {
+							v := el
+							if kv, ok := el.(*ast.KeyValueExpr); ok {
+								v = kv.Value
+							}
+							if aliases(v) {
+								bad = "a streamingPacket is built over the read buffer at " + p.Pos(y.Pos())
+							}
+						}
+					}
+				case *ast.SendStmt:
+					if aliases(y.Value) {
+						bad = "the read buffer is sent on a channel at " + p.Pos(y.Pos())
+					}
+				case *ast.CallExpr:
+					switch p.CalleeName(y) {
+					case "ice.tcpPacketConn.handleRecv", "ice.tcpPacketConn.deliver":
+						for _, a := range y.Args {
+							if aliases(a) {
+								bad = "the read buffer itself is queued at " + p.Pos(y.Pos())
+							}
+						}
+					}
+				}
+				return true
+			})
+			r.Check(bad == "", f.Name+": packets handed on are copies of the read buffer "+b.Name(), p.Pos(b.Pos()), "no queued value aliases the reused buffer", bad+": the queued packet is overwritten by the next frame read into the same buffer before the application has read it (wrong or mixed payloads under a backlog)")
+		}
+	}
+	if n == 0 {
+		r.Fail("readers with a reused buffer", "", "no loop calling readStreamingPacket with a buffer declared outside it (rule instance lost)")
+	}
+}
+
+
+// checkReadStreamingPacket: the read side of the framing (C14 R14.1, shared with C15 R15.11).
+func checkReadStreamingPacket(p *Prog, r *Report, rd *Func, hdr *big.Int) {
+	bufObj := p.paramObj(rd, 1)
+	connObj := p.paramObj(rd, 0)
+	isCapBuf := func(e ast.Expr) bool { return p.isBuiltinOf(e, "cap", bufObj) || p.isBuiltinOf(e, "len", bufObj) }
+	walkBody(rd, func(n ast.Node) bool {
+		sl, ok := n.(*ast.SliceExpr)
+		if !ok {
+			return true
+		}
+		id, ok := unparen(sl.X).(*ast.Ident)
+		if !ok {
+			return true
+		}
+		pos := p.Pos(sl.Pos())
+		if p.ObjOf(id) == bufObj {
+			facts, _ := p.FactsAtCall(rd, sl)
+			hi := sl.High
+			ok := hi != nil && factLT(p, facts, false, isCapBuf, func(e ast.Expr) bool { return p.Canon(e) == p.Canon(hi) })
+			r.Check(ok, "readStreamingPacket: slice of caller buffer", pos, "upper bound dominated by !(cap(buf) < bound)",
+				"the caller's buffer is sliced up to "+stripVarLines(p.Canon(hi))+" without a dominating test that it does not exceed cap(buf): a hostile length field makes the slice panic or the read unbounded")
+		} else if o := p.ObjOf(id); o != nil {
+			// local header buffer: constant make size >= constant upper bound
+			if d, ok := p.SingleDef(rd, o); ok {
+				if mk, ok := unparen(d.Rhs).(*ast.CallExpr); ok && p.CalleeName(mk) == "builtin.make" && len(mk.Args) >= 2 {
+					sz, ok1 := p.constBig(mk.Args[1])
+					var hi *big.Int
+					ok2 := false
+					if sl.High != nil {
+						hi, ok2 = p.constBig(sl.High)
+					}
+					r.Check(ok1 && ok2 && hi.Cmp(sz) <= 0, "readStreamingPacket: slice of header buffer", pos, "constant bound within constant size", "header buffer slice bound is not a constant within the buffer's constant size")
+				}
+			}
+		}
+		return true
+	})
+	// ErrShortBuffer only when strictly larger
+	foundShort := false
+	walkBody(rd, func(n ast.Node) bool {
+		rs, ok := n.(*ast.ReturnStmt)
+		if !ok || len(rs.Results) != 2 || !p.MentionsObj(rs.Results[1], "io.ErrShortBuffer") {
+			return true
+		}
+		foundShort = true
+		facts, _ := p.FactsAtCall(rd, rs)
+		ok2 := factLT(p, facts, true, func(e ast.Expr) bool { return p.isBuiltinOf(e, "cap", bufObj) }, func(e ast.Expr) bool { return true })
+		r.Check(ok2, "readStreamingPacket: short-buffer error condition", p.Pos(rs.Pos()), "returned exactly when cap(buf) < length",
+			"io.ErrShortBuffer is not returned under 'length > cap(buf)': frames that fit the buffer exactly are refused, or oversized ones accepted")
+		return true
+	})
+	if !foundShort {
+		r.Fail("readStreamingPacket: short-buffer error condition", p.Pos(rd.Body.Pos()), "no io.ErrShortBuffer return: frames larger than the reader's buffer are not refused")
+	}
+	// length derives from the BigEndian Uint16 of the header
+	lenOK := false
+	walkBody(rd, func(n ast.Node) bool {
+		if c, ok := n.(*ast.CallExpr); ok && p.CalleeName(c) == "encoding/binary.bigEndian.Uint16" {
+			lenOK = true
+		}
+		return true
+	})
+	r.Check(lenOK, "readStreamingPacket: header decoding", p.Pos(rd.Body.Pos()), "binary.BigEndian.Uint16(header)", "the length is not decoded as a big-endian 16-bit header")
+	// loops
+	nLoops := 0
+	walkBody(rd, func(n ast.Node) bool {
+		fs, ok := n.(*ast.ForStmt)
+		if !ok {
+			return true
+		}
+		nLoops++
+		problems := p.checkReadLoop(rd, fs, connObj)
+		r.Check(len(problems) == 0, fmt.Sprintf("readStreamingPacket: read loop #%d", nLoops), p.Pos(fs.Pos()), "for read < want { n = Read(x[read:want]); read += n }", strings.Join(problems, "; "))
+		return true
+	})
+	if nLoops != 2 {
+		r.Fail("readStreamingPacket: read loops", p.Pos(rd.Body.Pos()), fmt.Sprintf("expected a header loop and a body loop, found %d loops: short reads are not tolerated", nLoops))
+	}
+	// every error from Read is returned
+	for _, c := range p.CallsTo(rd, false, "net.Conn.Read") {
+		loc, _ := p.CFG(rd).Locate(c)
+		_ = loc
+	}
 }
